@@ -422,6 +422,60 @@ func c19(x *mon.Ctx) {
 			}
 		}
 	}
+	// random combinations over all 13 fields at once: every field independently picks its config kind and flag kind.
+	// Expected code: a malformed flag => 1 (rejected while parsing flags); else a malformed effective value => 1
+	// (conversion fails after verification succeeded); else any effective mismatch => 4; else 0.
+	for n := 0; n < x.Pick(60, 1500); n++ {
+		rr := x.Rand(fmt.Sprint("combo", n))
+		cfg := &ccpb.Config{Policy: &ccpb.Policy{HeaderPolicy: &ccpb.HeaderPolicy{}, TdQuoteBodyPolicy: &ccpb.TDQuoteBodyPolicy{}}}
+		args := append([]string{}, base...)
+		want, desc := 0, []string{}
+		anyFlagMalformed, anyEffMalformed, anyEffMismatch := false, false, false
+		weights := []string{"absent", "absent", "absent", "matching", "matching", "mismatching", "malformed"}
+		if n%3 != 0 {
+			weights = weights[:6] // two thirds of the combinations contain no malformed entry
+		}
+		for _, f := range fields {
+			ck, fk := weights[rr.Intn(len(weights))], weights[rr.Intn(len(weights))]
+			if ck != "absent" {
+				f.setCfg(cfg, ck)
+			}
+			switch fk {
+			case "matching":
+				args = append(args, "-"+f.name+"="+f.good)
+			case "mismatching":
+				args = append(args, "-"+f.name+"="+f.bad)
+			case "malformed":
+				args = append(args, "-"+f.name+"="+f.malformedFlag)
+				anyFlagMalformed = true
+			}
+			eff := ck
+			if fk != "absent" {
+				eff = fk
+			}
+			anyEffMalformed = anyEffMalformed || eff == "malformed"
+			anyEffMismatch = anyEffMismatch || eff == "mismatching"
+			if ck != "absent" || fk != "absent" {
+				desc = append(desc, f.name+":"+ck[:3]+"/"+fk[:3])
+			}
+		}
+		switch {
+		case anyFlagMalformed, anyEffMalformed:
+			want = 1
+		case anyEffMismatch:
+			want = 4
+		}
+		var cf string
+		if n%2 == 0 {
+			b, _ := proto.Marshal(cfg)
+			cf = write(fmt.Sprintf("combo-%d.bin", n), b)
+		} else {
+			b, _ := prototext.Marshal(cfg)
+			cf = write(fmt.Sprintf("combo-%d.textproto", n), b)
+		}
+		args = append(args, "-config", cf)
+		add("policy-combination", strings.Join(desc, ","), "", want, -1, want == 0, args...)
+	}
 	// flag padding rule: a short hex value is right-padded with zeros (legitimate), so it only matches a field ending in zeros
 	if q.MrTd[47] == 0 {
 		add("flag-padding", "short-mr_td", "", 0, -1, true, with("-mr_td="+hx(q.MrTd[:47]))...)
